@@ -72,6 +72,7 @@ package ignore
 // Not claimed: that every @ignore line of a kept file yields a marker (the skip paths are the two pre-filters, discharged
 // as language inclusions under C15, and parseIgnoreAnnotation == nil, whose contract says "not an @ignore line").
 //@ func ReadIgnoreAnnotations
+//@   merge
 //@   props C07 C08 C14 C10
 //@   requires cfg != nil && pass.Fset != nil
 //@   fresh
